@@ -195,7 +195,40 @@ class Check(Property):
                 v.append(f"{tag} [{tname}]: raised {type(exc).__name__}: {exc}")
         return v
 
+    def loaded_definitions_probe(self):
+        """the relation follows the definitions that are loaded NOW: a spelling that was read as prefix + unit and is then
+        defined as a unit of another dimension is compatible with what the definition says"""
+        v = []
+        u = regs.fresh("float")
+        for nm, olddim_unit in (("ab", "meter**2"), ("fm", "meter"), ("mt", "kilogram")):
+            try:
+                u.get_dimensionality(nm)
+                u.Quantity(1.0, nm).is_compatible_with(olddim_unit)
+                u.define(f"{nm} = 2 * second")
+                q = u.Quantity(3.0, nm)
+                obs = {"get_dimensionality": dict(u.get_dimensionality(nm)) == {"[time]": 1},
+                       "is_compatible_with(second)": bool(q.is_compatible_with("second")),
+                       "not is_compatible_with(old)": not q.is_compatible_with(olddim_unit),
+                       "check([time])": bool(q.check("[time]")),
+                       "to(second)": abs(q.to("second").magnitude - 6.0) < 1e-12}
+                try:
+                    q.to(olddim_unit)
+                    obs["to(old) raises"] = False
+                except Exception as exc:  # noqa: BLE001
+                    obs["to(old) raises"] = type(exc).__name__ == "DimensionalityError"
+                bad = [k for k, ok in obs.items() if not ok]
+                if bad:
+                    v.append(f"C01 after define('{nm} = 2 * second') (the spelling had been read as a prefixed unit before): {bad} do not follow the definition")
+            except Exception as exc:  # noqa: BLE001
+                v.append(f"C01 loaded-definitions probe for {nm!r} raised {type(exc).__name__}: {exc}")
+        return v
+
     def oracle(self, c):
+        if not getattr(self, "_probe_done", False):
+            self._probe_done = True
+            pv = self.loaded_definitions_probe()
+            if pv:
+                return pv
         if c["kind"] == "dimexpr":
             return self.oracle_dimexpr(c)
         P = regs.pools()
